@@ -24,7 +24,11 @@ pub enum SessErr {
 impl ISession {
     pub fn start(kind: &str, init: &Value) -> Result<ISession, String> {
         let exe = std::env::current_exe().map_err(|e| e.to_string())?;
+        use std::os::unix::process::CommandExt;
         let mut child = Command::new(exe)
+            // own process group: a signal the debugger under test sends to "its group" (pid 0)
+            // must not reach the explorer
+            .process_group(0)
             .arg("worker")
             .arg(kind)
             .env_clear()
